@@ -349,3 +349,50 @@ package terminal
 //@   assigns  t.readerPos, captures(fun)
 //@ callee fun(pos parsley.Pos) (np parsley.Pos)
 //@   include ast.rpcallback
+
+//@ assume func strconv.Quote(s string) (r string)
+//@   assigns nothing
+//@ assume func strings.ToUpper(s string) (r string)
+//@   assigns nothing
+
+//@ -- ------------------------------------------------------------------ constructors of the literal parsers
+//@ -- what the parser closures require of their captured variables is established here (closure@make obligations)
+//@ func Rune(ch rune) (r parser.Func)
+//@   requires 0 <= ch && ch <= 0x10FFFF
+//@   ensures  r != nil
+//@   assigns  nothing
+//@ func Op(op string) (r parser.Func)
+//@   requires op != ""
+//@   ensures  r != nil
+//@   assigns  nothing
+//@ func Word(schema interface{}, word string, value interface{}) (r parser.Func)
+//@   requires word != "" && forall i int :: 0 <= i && i < len(word) ==> word[i] < 0x80
+//@   ensures  r != nil
+//@   assigns  nothing
+//@ func Bool(schema interface{}, trueStr string, falseStr string) (r parser.Func)
+//@   requires trueStr != "" && falseStr != "" && (forall i int :: 0 <= i && i < len(trueStr) ==> trueStr[i] < 0x80) && (forall i int :: 0 <= i && i < len(falseStr) ==> falseStr[i] < 0x80)
+//@   ensures  r != nil
+//@   assigns  nothing
+//@ func Nil(schema interface{}, nilStr string) (r parser.Func)
+//@   requires nilStr != "" && forall i int :: 0 <= i && i < len(nilStr) ==> nilStr[i] < 0x80
+//@   ensures  r != nil
+//@   assigns  nothing
+//@ func Integer(schema interface{}) (r parser.Func)
+//@   ensures  r != nil
+//@   assigns  nothing
+//@ func Float(schema interface{}) (r parser.Func)
+//@   ensures  r != nil
+//@   assigns  nothing
+//@ func TimeDuration(schema interface{}) (r parser.Func)
+//@   ensures  r != nil
+//@   assigns  nothing
+//@ func Char(schema interface{}) (r parser.Func)
+//@   ensures  r != nil
+//@   assigns  nothing
+//@ func String(schema interface{}, allowBackquote bool) (r parser.Func)
+//@   ensures  r != nil
+//@   assigns  nothing
+//@ func Regexp(schema interface{}, token string, name string, regexp string, groupIndex int) (r parser.Func)
+//@   requires text.ValidPattern(regexp) && 0 <= groupIndex && groupIndex <= text.GroupsOf("^(?:" + regexp + ")")
+//@   ensures  r != nil
+//@   assigns  nothing
